@@ -218,6 +218,17 @@ def _iso(g1, g2):
     return isomorphic(d1, d2)
 
 
+def extra_stage(tier, seed, workdir):
+    """Thorough tier: the repository's own 939 tests run with the monitor attached (pytest plugin pv.pytest_plugin)."""
+    if tier != "thorough":
+        return {}, []
+    counters, reports, tail = common.suite_under_monitors("PURE", workdir)
+    counters["suite.ran"] = 1
+    viol = [{"idx": -2, "what": "PURE monitor while the repository's test-suite ran (%s): %s" % ((w[1] or {}).get("context"), w[0]),
+             "payload": {"workload": "repository test-suite under monitors", "pytest": tail}, "witness": w[1]} for w in reports[:5]]
+    return counters, viol
+
+
 def run_case(ctx, idx):
     judge(ctx, idx, make_case(ctx, idx))
 
@@ -241,6 +252,8 @@ def floors(counters, tier, extra):
     for c in ("json", "xml", "xml_force", "provn", "rdf", "dot", "dot_opts", "graph"):
         if counters.get("call.%s.ok" % c, 0) < need:
             out.append("exporter %s succeeded only %d times" % (c, counters.get("call.%s.ok" % c, 0)))
+    if tier == "thorough" and counters.get("suite.PURE.evaluations", 0) < 1000:
+        out.append("the monitor observed the repository's test-suite only %d times" % counters.get("suite.PURE.evaluations", 0))
     out.extend(common.cov_floor(extra))
     return out
 
